@@ -126,6 +126,15 @@ impl<T: RtpsWriter> DataWriterEntity<T> {
             }
         }
 
+        // A sample that is already expired is never sent: it must not take a sequence number either, because
+        // nobody could ever acknowledge it
+        if let DurationKind::Finite(lifespan_duration) = self.qos.lifespan.duration {
+            let duration_until_expired = sample_timestamp - now + lifespan_duration;
+            if duration_until_expired <= Duration::new(0, 0) {
+                return Ok(());
+            }
+        }
+
         self.last_change_sequence_number += 1;
         let change = CacheChange {
             kind: ChangeKind::Alive,
@@ -154,13 +163,6 @@ impl<T: RtpsWriter> DataWriterEntity<T> {
         }
 
         instance_info.samples.push_back(change.sequence_number);
-
-        if let DurationKind::Finite(lifespan_duration) = self.qos.lifespan.duration {
-            let duration_until_expired = sample_timestamp - now + lifespan_duration;
-            if duration_until_expired <= Duration::new(0, 0) {
-                return Ok(());
-            }
-        }
 
         self.transport_writer
             .add_change(change, message_writer, runtime);
